@@ -2,7 +2,8 @@
 from __future__ import annotations
 from ..derivcommon import run_derivative_property
 
-ROUTES = ["LocatedDifferential.component", "Differential.at.component"]
+ROUTES = ["LocatedDifferential.component", "Differential.at.component",
+          "at(previous point);LocatedDifferential.component"]
 
 
 def check(rep):
